@@ -93,6 +93,8 @@ def render_config(watchers, circus, sockets=(), tmp=None):
             lines += ["host = 127.0.0.1", "port = 0"]
         if sk.get("proto"):
             lines.append("proto = %s" % sk["proto"])
+        if sk.get("blocking"):
+            lines.append("blocking = True")
         lines.append("")
     for wc in watchers:
         lines.append("[watcher:%s]" % wc["name"])
